@@ -24,9 +24,15 @@ pub mod conc {
         }
         let panicked = Arc::new(AtomicBool::new(false));
         let stop = Arc::new(AtomicBool::new(false));
-        let progress: Vec<Arc<AtomicU64>> = (0..3).map(|_| Arc::new(AtomicU64::new(0))).collect();
+        // "crossing": two readers that look each other's node up (a -> b, b -> a) while a writer waits on each of the two
+        // nodes: a lookup that holds its own node's guard while taking the neighbour's deadlocks all four threads
+        let nth: usize = if which == "crossing" { 4 } else { 3 };
+        if which == "crossing" {
+            b.connect(&a, Et::of(9));
+        }
+        let progress: Vec<Arc<AtomicU64>> = (0..nth).map(|_| Arc::new(AtomicU64::new(0))).collect();
         let mut handles = Vec::new();
-        for t in 0..3usize {
+        for t in 0..nth {
             let (a, b) = (a.clone(), b.clone());
             let (c3, d4) = (c3.clone(), d4.clone());
             let panicked = panicked.clone();
@@ -54,6 +60,16 @@ pub mod conc {
                             if b.disconnect(&Kt::of(3)).is_err() {   // removes the OLDEST 2->3 edge: the ring keeps one
                                 panic!("the only writer's disconnect failed");
                             }
+                        }
+                        ("crossing", 0) => { query_all(&a); }
+                        ("crossing", 1) => { query_all(&b); }
+                        ("crossing", 2) => {
+                            c3.connect(&a, Et::of(i));
+                            if c3.disconnect(&Kt::of(1)).is_err() { panic!("the only writer on this pair failed to remove its own edge"); }
+                        }
+                        ("crossing", _) => {
+                            d4.connect(&b, Et::of(i));
+                            if d4.disconnect(&Kt::of(2)).is_err() { panic!("the only writer on this pair failed to remove its own edge"); }
                         }
                         // isolate (many critical sections, on the node and on every neighbour) against readers only
                         ("isolate", 0) => { query_all(&a); traverse_all(&b); }
@@ -97,7 +113,7 @@ pub mod conc {
             }));
         }
         let t0 = Instant::now();
-        let mut last: Vec<u64> = vec![0; 3];
+        let mut last: Vec<u64> = vec![0; nth];
         let mut stalled_since: Option<Instant> = None;
         let mut verdict = "ok".to_string();
         while t0.elapsed() < Duration::from_millis(millis) {
